@@ -6,10 +6,487 @@ Every definition cites the Rust function it transcribes (file + fn) and keeps it
 wrapping arithmetic and its error returns; `Out.trap` / `none`-as-panic results mark what would be a panic of
 the overflow-checked profile, and Props/C01HandVar.lean shows they are never produced.  Tied to the real code
 by harness group `vars.model` (driver commands `hv.*`, Drv/C01HandVar.lean).
+
+Conventions: a table is its byte list `d : List Nat`; `usize` is 64 bit (`HandRead.MAXU`); an unchecked
+`a + b` / `a * b` of the source on `usize` values is `uadd` / `umul` (`none` = overflow panic of the strict
+profile); a getter of a `TableRef` (`self.data.read_at(range.start).unwrap()`) is an `Option` whose `none`
+is the `unwrap` panic.  Results that can be a Rust `Err` *or* a panic are values of `R`.
+Arithmetic kernels that C10 / C20 already transcribe are imported: `Checked.tupleScalar`
+(`TupleVariation::compute_scalar`), `Tent.deltaSet` / `Tent.itemDeltas` / `Tent.deltaLoop` /
+`Tent.computeScalar` (item variation store), `GvarLayout.dataRange` / `dataForGid`.
 -/
 import FontVerif.Model.ReadIter
 import FontVerif.Model.HandRead
+import FontVerif.Model.Tent
+import FontVerif.Model.GvarLayout
+import FontVerif.Model.Checked
 namespace FontVerif.HandVar
 open FontVerif FontVerif.ReadIter FontVerif.HandRead
+
+/-! ## results, unchecked `usize` arithmetic -/
+
+/-- `ReadError` kinds that occur in this sub-system -/
+inductive VErr where
+  | oob
+  | nullOffset
+  | invalidFormat (n : Nat)
+  | malformed
+  | invalidIndex (i : Nat)
+  | metricMissing
+  deriving DecidableEq, Repr
+
+/-- result of a function that returns `Result<α, ReadError>` and could panic -/
+inductive R (α : Type) where
+  | ok (a : α)
+  | err (e : VErr)
+  | trap
+  deriving Repr
+
+def R.bind {α β : Type} (r : R α) (k : α → R β) : R β :=
+  match r with
+  | .ok a => k a
+  | .err e => .err e
+  | .trap => .trap
+
+instance : Monad R where
+  pure := R.ok
+  bind := R.bind
+
+/-- `opt.unwrap()` -/
+def unwrapR {α : Type} : Option α → R α
+  | some a => .ok a
+  | none => .trap
+
+/-- `opt.ok_or(e)?` -/
+def okOr {α : Type} (e : VErr) : Option α → R α
+  | some a => .ok a
+  | none => .err e
+
+def R.isTrap {α : Type} : R α → Bool
+  | .trap => true
+  | _ => false
+
+/-- unchecked `a + b` on `usize`: `none` = "attempt to add with overflow" -/
+def uadd (a b : Nat) : Option Nat := if a + b ≤ MAXU then some (a + b) else none
+/-- unchecked `a * b` on `usize` -/
+def umul (a b : Nat) : Option Nat := if a * b ≤ MAXU then some (a * b) else none
+
+/-- an `i16` (`F2Dot14` bits) from its big-endian `u16` value -/
+def toI16 (v : Nat) : Int := if v < 32768 then (v : Int) else (v : Int) - 65536
+
+/-! ## `TupleIndex`, `TupleVariationCount` (variations.rs) -/
+
+/-- `TupleIndex::embedded_peak_tuple`: `bits & 0x8000 != 0` -/
+def tiEmbedded (ti : Nat) : Bool := decide (ti / 32768 % 2 = 1)
+/-- `TupleIndex::intermediate_region`: `bits & 0x4000 != 0` -/
+def tiInter (ti : Nat) : Bool := decide (ti / 16384 % 2 = 1)
+/-- `TupleIndex::private_point_numbers`: `bits & 0x2000 != 0` -/
+def tiPrivate (ti : Nat) : Bool := decide (ti / 8192 % 2 = 1)
+/-- `TupleIndex::tuple_records_index`: `(!embedded).then_some(bits & 0x0FFF)` -/
+def tiRecordsIndex (ti : Nat) : Option Nat := if tiEmbedded ti then none else some (ti % 4096)
+/-- `TupleVariationCount::count`: `bits & 0x0FFF` -/
+def tvcCount (b : Nat) : Nat := b % 4096
+/-- `TupleVariationCount::shared_point_numbers`: `bits & 0x8000 != 0` -/
+def tvcShared (b : Nat) : Bool := decide (b / 32768 % 2 = 1)
+
+/-- `TupleIndex::tuple_len(axis_count, flag)`: `flag as usize * axis_count as usize` -/
+def tupleLen (ti ac flag : Nat) : Nat :=
+  if flag = 0 then (if tiEmbedded ti then 1 else 0) * ac else (if tiInter ti then 1 else 0) * ac
+
+/-! ## `TupleVariationHeader` (generated reader + the hand-written getters) -/
+
+/-- a successfully read `TupleVariationHeader`: `TableRef { data, shape }`.  `data` is everything
+from the start of the header to the end of the enclosing data (it is not trimmed). -/
+structure Hdr where
+  data : List Nat
+  peakLen : Nat
+  isLen : Nat
+  ieLen : Nat
+  deriving Repr, DecidableEq
+
+/-- generated `TupleVariationHeader::read_with_args(data, &axis_count)`: `cursor.advance::<u16>()`,
+`tuple_index = cursor.read()?`, the three `tuple_len(..).checked_mul(2).ok_or(OutOfBounds)?` +
+`advance_by` (saturating), `cursor.finish`.  `none` = `Err(OutOfBounds)` (the only error). -/
+def tvhRead (d : List Nat) (ac : Nat) : Option Hdr :=
+  match readAt d 2 2 with
+  | none => none
+  | some ti =>
+    match checkedMul (tupleLen ti ac 0) 2, checkedMul (tupleLen ti ac 1) 2 with
+    | some pk, some it =>
+      let pos := satAdd (satAdd (satAdd 4 pk) it) it
+      if pos ≤ d.length then some ⟨d, pk, it, it⟩ else none
+    | _, _ => none
+
+/-- generated getter `variation_data_size()`: `self.data.read_at(0).unwrap()` (`none` = panic) -/
+def Hdr.size (h : Hdr) : Option Nat := readAt h.data 0 2
+/-- generated getter `tuple_index()`: `self.data.read_at(2).unwrap()` -/
+def Hdr.ti (h : Hdr) : Option Nat := readAt h.data 2 2
+
+/-- generated `peak_tuple_byte_range()`: `start..start + self.peak_tuple_byte_len` (unchecked) -/
+def Hdr.peakRange (h : Hdr) : Option (Nat × Nat) := (uadd 4 h.peakLen).map (fun e => (4, e))
+/-- generated `intermediate_start_tuple_byte_range()` -/
+def Hdr.isRange (h : Hdr) : Option (Nat × Nat) :=
+  match h.peakRange with
+  | none => none
+  | some (_, s) => (uadd s h.isLen).map (fun e => (s, e))
+/-- generated `intermediate_end_tuple_byte_range()` -/
+def Hdr.ieRange (h : Hdr) : Option (Nat × Nat) :=
+  match h.isRange with
+  | none => none
+  | some (_, s) => (uadd s h.ieLen).map (fun e => (s, e))
+
+/-- the `n` big-endian `F2Dot14` values at `a` -/
+def tupleVals (d : List Nat) (a n : Nat) : List Int :=
+  (List.range n).map (fun i => toI16 (HandRead.beAt d (a + 2 * i) 2))
+
+/-- an optional tuple whose construction may panic -/
+inductive TupR where
+  | none
+  | some (vals : List Int)
+  | trap
+  deriving Repr, DecidableEq
+
+/-- `Tuple { values: self.data.read_array(range).unwrap() }`; the range itself comes from unchecked
+additions -/
+def tupleAt (d : List Nat) (r : Option (Nat × Nat)) : TupR :=
+  match r with
+  | none => .trap
+  | some (a, b) =>
+    match HandRead.readArray d a b 2 with
+    | .ok n => .some (tupleVals d a n)
+    | .error _ => .trap
+
+/-- `TupleVariationHeader::peak_tuple` -/
+def Hdr.peakTuple (h : Hdr) : TupR :=
+  match h.ti with
+  | none => .trap
+  | some ti => if tiEmbedded ti then tupleAt h.data h.peakRange else .none
+
+/-- `TupleVariationHeader::intermediate_start_tuple` -/
+def Hdr.interStartTuple (h : Hdr) : TupR :=
+  match h.ti with
+  | none => .trap
+  | some ti => if tiInter ti then tupleAt h.data h.isRange else .none
+
+/-- `TupleVariationHeader::intermediate_end_tuple` -/
+def Hdr.interEndTuple (h : Hdr) : TupR :=
+  match h.ti with
+  | none => .trap
+  | some ti => if tiInter ti then tupleAt h.data h.ieRange else .none
+
+/-- an optional pair of tuples whose construction may panic -/
+inductive Tup2R where
+  | none
+  | some (a b : List Int)
+  | trap
+  deriving Repr, DecidableEq
+
+/-- `TupleVariationHeader::intermediate_tuples` -/
+def Hdr.interTuples (h : Hdr) : Tup2R :=
+  match h.ti with
+  | none => .trap
+  | some ti =>
+    if tiInter ti then
+      match tupleAt h.data h.isRange, tupleAt h.data h.ieRange with
+      | .some a, .some b => .some a b
+      | _, _ => .trap
+    else .none
+
+/-- `TupleVariationHeader::byte_len(axis_count)`: `FIXED_LEN + embedded.then_some(tuple_byte_len)
+.unwrap_or_default() + intermediate.then_some(tuple_byte_len * 2).unwrap_or_default()` — `then_some`
+evaluates its argument eagerly; all operators unchecked.  `none` = panic. -/
+def Hdr.byteLen (h : Hdr) (ac : Nat) : Option Nat :=
+  match h.ti with
+  | none => none
+  | some ti =>
+    match umul 2 ac with
+    | none => none
+    | some tbl =>
+      match uadd 4 (if tiEmbedded ti then tbl else 0), umul tbl 2 with
+      | some a, some t2 => uadd a (if tiInter ti then t2 else 0)
+      | _, _ => none
+
+/-! ## `TupleVariationHeaderIter` -/
+
+structure HSt where
+  data : List Nat
+  current : Nat
+  deriving Repr, DecidableEq
+
+/-- `TupleVariationHeaderIter::next` (one call): `if current == n_headers { return None }`,
+`current += 1`, `next = TupleVariationHeader::read(data, axis_count)`,
+`next_len = next.map(byte_len).unwrap_or(0)`, `data = data.split_off(next_len)?`, `Some(next)`.
+An item is `some h` (`Ok`) or `none` (`Err(OutOfBounds)`). -/
+def tvhNext (n ac : Nat) (s : HSt) : Out (Option Hdr) × HSt :=
+  if s.current = n then (.done, s)
+  else
+    match uadd s.current 1 with
+    | none => (.trap, s)
+    | some c1 =>
+      let next := tvhRead s.data ac
+      let nextLen : Option Nat := match next with
+        | some h => h.byteLen ac
+        | none => some 0
+      match nextLen with
+      | none => (.trap, { s with current := c1 })
+      | some nl =>
+        match splitOff s.data nl with
+        | none => (.done, { s with current := c1 })
+        | some _ => (.yield next, { data := s.data.drop nl, current := c1 })
+
+/-- `TupleVariationHeaderIter::new(data, n, axis_count).collect()`; fuel `n + 1` always suffices -/
+def tvhTrace (d : List Nat) (n ac : Nat) : Option (List (Out (Option Hdr))) :=
+  run (tvhNext n ac) (n + 1) ⟨d, 0⟩
+
+/-! ## `TupleVariationData`, `TupleVariationIter`, `TupleVariation` -/
+
+/-- `TupleVariationData<T>` -/
+structure TVD where
+  ac : Nat
+  /-- data of the `ComputedArray<Tuple>` of shared tuples (items of `2 * axis_count` bytes) -/
+  shared : Option (List Nat)
+  /-- data of the shared `PackedPointNumbers` -/
+  sharedPts : Option (List Nat)
+  /-- `tuple_count` bits -/
+  countBits : Nat
+  headerData : List Nat
+  ser : List Nat
+  deriving Repr, DecidableEq
+
+/-- `TupleVariation<T>` (the parent's fields stay in the `TVD`) -/
+structure TV where
+  hdr : Hdr
+  varData : List Nat
+  deriving Repr, DecidableEq
+
+structure TSt where
+  current : Nat
+  h : HSt
+  ser : List Nat
+  deriving Repr, DecidableEq
+
+/-- `TupleVariationData::tuples` -/
+def TVD.tuplesInit (p : TVD) : TSt := { current := 0, h := ⟨p.headerData, 0⟩, ser := p.ser }
+
+/-- `TupleVariationIter::next_tuple` (one call): `if tuple_count == current { return None }`,
+`current += 1`, `header = header_iter.next()?.ok()?`, `data_len = header.variation_data_size()`,
+`var_data = serialized_data.take_up_to(data_len)?`. -/
+def tvNext (p : TVD) (s : TSt) : Out TV × TSt :=
+  let count := tvcCount p.countBits
+  if count = s.current then (.done, s)
+  else
+    match uadd s.current 1 with
+    | none => (.trap, s)
+    | some c1 =>
+      match tvhNext count p.ac s.h with
+      | (.trap, h') => (.trap, { s with current := c1, h := h' })
+      | (.done, h') => (.done, { s with current := c1, h := h' })
+      | (.cont, h') => (.cont, { s with current := c1, h := h' })
+      | (.yield none, h') => (.done, { s with current := c1, h := h' })
+      | (.yield (some hdr), h') =>
+        match hdr.size with
+        | none => (.trap, { s with current := c1, h := h' })
+        | some dataLen =>
+          match takeUpTo s.ser dataLen with
+          | (none, _) => (.done, { s with current := c1, h := h' })
+          | (some _, _) =>
+            (.yield ⟨hdr, s.ser.take dataLen⟩, { current := c1, h := h', ser := s.ser.drop dataLen })
+
+/-- `tvd.tuples().collect()` (up to the first `None`); fuel `count + 1` always suffices -/
+def tvTrace (p : TVD) : Option (List (Out TV)) :=
+  run (tvNext p) (tvcCount p.countBits + 1) p.tuplesInit
+
+/-- `PackedPointNumbers::split_off_front(data)`: `(points, data.split_off(total_len).unwrap_or_default())`;
+`none` = `total_len` panicked (u16 overflow) / ran out of fuel -/
+def splitOffFront (d : List Nat) : Option (List Nat × List Nat) :=
+  match totalLen d with
+  | none => none
+  | some tl => some (d, if tl ≤ d.length then d.drop tl else [])
+
+/-- `TupleVariation::point_numbers_and_packed_deltas`: private points are split off the tuple's own
+data, otherwise the shared ones (or the empty default = "all points") apply.  `none` = panic. -/
+def TV.pointsAndDeltas (p : TVD) (t : TV) : Option (List Nat × List Nat) :=
+  match t.hdr.ti with
+  | none => none
+  | some ti =>
+    if tiPrivate ti then splitOffFront t.varData
+    else some (p.sharedPts.getD [], t.varData)
+
+/-- `TupleVariation::has_deltas_for_all_points` -/
+def TV.hasDeltasForAllPoints (p : TVD) (t : TV) : Option Bool :=
+  match t.hdr.ti with
+  | none => none
+  | some ti =>
+    if tiPrivate ti then some (pointCount t.varData = 0)
+    else match p.sharedPts with
+      | some sp => some (pointCount sp = 0)
+      | none => some false
+
+/-- `ComputedArray<Tuple>::get(idx)` on shared-tuple data: `compGet` finds the item,
+`Tuple::read_with_args` (`cursor.read_array(axis_count)`) reads it -/
+def sharedTupleGet (sd : List Nat) (ac idx : Nat) : Option (List Int) :=
+  (compGet sd.length (2 * ac) idx).map (fun off => tupleVals sd off ac)
+
+/-- `TupleVariation::peak`: `tuple_records_index().and_then(|idx| shared_tuples?.get(idx).ok())
+.or_else(|| header.peak_tuple()).unwrap_or_default()`; `none` = panic -/
+def TV.peak (p : TVD) (t : TV) : Option (List Int) :=
+  match t.hdr.ti with
+  | none => none
+  | some ti =>
+    let fromShared : Option (List Int) :=
+      match tiRecordsIndex ti, p.shared with
+      | some idx, some sd => sharedTupleGet sd p.ac idx
+      | _, _ => none
+    match fromShared with
+    | some v => some v
+    | none =>
+      match t.hdr.peakTuple with
+      | .trap => none
+      | .none => some []
+      | .some v => some v
+
+/-- `TupleVariation::compute_scalar(coords)`: the peak must have `axis_count` values, then the loop
+over the non-zero peaks (`Checked.tupleScalar`, whose `none` is an arithmetic trap); `coords`, peaks
+and intermediates are `F2Dot14` bits, the result `Fixed` bits (`ok none` = not applicable) -/
+def TV.computeScalar (p : TVD) (t : TV) (coords : List Int) : R (Option Int) :=
+  match t.peak p with
+  | none => .trap
+  | some pk =>
+    if pk.length ≠ p.ac then .ok none
+    else
+      match t.hdr.interTuples with
+      | .trap => .trap
+      | .none => unwrapR (Checked.tupleScalar pk none coords)
+      | .some a b => unwrapR (Checked.tupleScalar pk (some (a, b)) coords)
+
+/-- the `for i in 0..axis_count` loop of `compute_scalar_f32`: only the control flow (`false` =
+`return None`); the `f32` products cannot trap.  All values are `to_bits() as i32`. -/
+def f32Loop (inter : Option (List Int × List Int)) (coords pk : List Int) : List Nat → Bool
+  | [] => true
+  | i :: rest =>
+    let coord := coords.getD i 0
+    let peak := pk.getD i 0
+    if peak = 0 ∨ peak = coord then f32Loop inter coords pk rest
+    else if coord = 0 then false
+    else
+      match inter with
+      | some (starts, ends) =>
+        let start := starts.getD i 0
+        let end_ := ends.getD i 0
+        if start > peak ∨ peak > end_ ∨ (start < 0 ∧ end_ > 0 ∧ peak ≠ 0) then f32Loop inter coords pk rest
+        else if coord < start ∨ coord > end_ then false
+        else f32Loop inter coords pk rest
+      | none =>
+        if coord < min peak 0 ∨ coord > max peak 0 then false
+        else f32Loop inter coords pk rest
+
+/-- `TupleVariation::compute_scalar_f32(coords)`, `Some` / `None` only: the two intermediate tuples
+are fetched before the length test -/
+def TV.computeScalarF32 (p : TVD) (t : TV) (coords : List Int) : R Bool :=
+  match t.peak p, t.hdr.interStartTuple, t.hdr.interEndTuple with
+  | none, _, _ => .trap
+  | _, .trap, _ => .trap
+  | _, _, .trap => .trap
+  | some pk, is_, ie =>
+    if pk.length ≠ p.ac then .ok false
+    else
+      let inter : Option (List Int × List Int) :=
+        match is_, ie with
+        | .some a, .some b => some (a, b)
+        | _, _ => none
+      .ok (f32Loop inter coords pk (List.range p.ac))
+
+/-- `TupleVariation::deltas` + `TupleDeltaIter::new` with the point numbers `pd` and the packed
+deltas `dd` in separate buffers (`ReadIter.tdInit` is the special case of private points); `none` = a
+helper ran out of fuel / trapped (never: `tdInit2_some`) -/
+def tdInit2 (pd dd : List Nat) (isPoint : Bool) : Option TdSt :=
+  let count := pointCount pd
+  let total : Option Nat :=
+    if count = 0 then countAllDeltas dd else some (if isPoint then count * 2 else count)
+  match total with
+  | none => none
+  | some total =>
+    let first := ptNext pd (ptInit pd)
+    let (pts, np) : Option PtSt × Nat :=
+      match first.1 with
+      | .yield v => (some first.2, v)
+      | _ => (none, 0)
+    if isPoint then
+      match skipFast dd (total / 2) (dlInit (some total)) with
+      | none => none
+      | some ys => some { cur := 0, points := pts, nextPoint := np, x := dlInit (some (total / 2)), y := some ys }
+    else
+      some { cur := 0, points := pts, nextPoint := np, x := dlInit (some total), y := none }
+
+/-- `tuple.deltas().collect()`; items `(position, dx, dy)` -/
+def TV.deltasTrace (p : TVD) (t : TV) (isPoint : Bool) : Option (List (Out (Nat × Int × Int))) :=
+  match t.pointsAndDeltas p with
+  | none => none
+  | some (pd, dd) =>
+    match tdInit2 pd dd isPoint with
+    | none => none
+    | some s => run (tdStep pd dd) (tdFuel dd) s
+
+/-! ## `GlyphVariationData::new` (gvar.rs), `Cvar::variation_data` (cvar.rs) -/
+
+/-- `Offset16/32::resolve::<FontData>(data)`: `non_null().ok_or(NullOffset)`,
+`data.split_off(off).ok_or(OutOfBounds)` -/
+def resolveData (d : List Nat) (off : Nat) : R (List Nat) :=
+  if off = 0 then .err .nullOffset
+  else if off ≤ d.length then .ok (d.drop off) else .err .oob
+
+/-- the shared point numbers, if the count says so: `PackedPointNumbers::split_off_front` -/
+def splitShared (countBits : Nat) (data : List Nat) : R (Option (List Nat) × List Nat) :=
+  if tvcShared countBits then
+    match splitOffFront data with
+    | none => .trap
+    | some (pts, rest) => .ok (some pts, rest)
+  else .ok (none, data)
+
+/-- `GlyphVariationData::new(data, axis_count, shared_tuples)`:
+generated `GlyphVariationDataHeader::read` (two `advance`s, `advance_by(remaining_bytes())`, `finish`),
+`raw_tuple_header_data` (`data.split_off(4).unwrap()`), the unwrapping getters,
+`serialized_data()?`, the shared point numbers -/
+def gvdNew (d : List Nat) (ac : Nat) (shared : List Nat) : R TVD :=
+  let pos := satAdd 4 (d.length - 4)
+  if pos > d.length then .err .oob
+  else
+    match splitOff d 4, readAt d 0 2, readAt d 2 2 with
+    | some _, some count, some off =>
+      match resolveData d off with
+      | .err e => .err e
+      | .trap => .trap
+      | .ok data =>
+        match splitShared count data with
+        | .err e => .err e
+        | .trap => .trap
+        | .ok (sp, ser) =>
+          .ok { ac := ac, shared := some shared, sharedPts := sp, countBits := count,
+                headerData := d.drop 4, ser := ser }
+    | _, _, _ => .trap
+
+/-- generated `Cvar::read` + `Cvar::variation_data(axis_count)`: `tuple_variation_count()` (unwrap
+getter), `self.data()?` (offset from the table start), `raw_tuple_header_data`
+(`data.split_off(8).unwrap()`), the shared point numbers; there are no shared tuples -/
+def cvarVariationData (d : List Nat) (ac : Nat) : R TVD :=
+  let pos := satAdd 8 (d.length - 8)
+  if pos > d.length then .err .oob
+  else
+    match readAt d 4 2, readAt d 6 2 with
+    | some count, some off =>
+      match resolveData d off with
+      | .err e => .err e
+      | .trap => .trap
+      | .ok data =>
+        match splitOff d 8 with
+        | none => .trap
+        | some _ =>
+          match splitShared count data with
+          | .err e => .err e
+          | .trap => .trap
+          | .ok (sp, ser) =>
+            .ok { ac := ac, shared := none, sharedPts := sp, countBits := count,
+                  headerData := d.drop 8, ser := ser }
+    | _, _ => .trap
 
 end FontVerif.HandVar
